@@ -333,8 +333,9 @@ pub fn gen_chan_case(rng: &mut Rng) -> ChanCase {
 }
 
 pub fn main(opts: &Opts) {
+    let prop = if opts.property.is_empty() { "C17".to_string() } else { opts.property.clone() };
     let mut report = Report::new(
-        "C17",
+        &prop,
         "(a) begin / end histories (1..12 operations) under local channel-max 0..65535 x remote channel-max 0..65535, every begin frame's channel \
          checked against min(local, remote) and the history compared with the slab-and-bound model; (b) idle clients (and clients with sparse \
          traffic of their own) whose peer advertised idle-time-out 2 ms .. 60 s, gaps between the frames they write over 6..12 periods; (c) clients \
@@ -428,7 +429,7 @@ pub fn main(opts: &Opts) {
                     report.sample(case.to_json());
                 }
                 if let Some((key, desc)) = check_channels(&case, &out) {
-                    report.finding(Finding { kind: "violation", key, description: desc, replay: json!({"property": "C17", "module": "limits", "channels": case.to_json(), "observed": out}) });
+                    report.finding(Finding { kind: "violation", key, description: desc, replay: json!({"property": prop, "module": "limits", "channels": case.to_json(), "observed": out}) });
                 }
                 refs.push((lines.len(), case.clone()));
                 lines.push(format!("N reset {}", case.local_max.min(case.remote_max)));
@@ -448,7 +449,7 @@ pub fn main(opts: &Opts) {
                     }
                 }
             }
-            Err(e) => report.finding(Finding { kind: "violation", key: "channels-scenario-failed".into(), description: e, replay: json!({"property": "C17", "module": "limits", "channels": case.to_json()}) }),
+            Err(e) => report.finding(Finding { kind: "violation", key: "channels-scenario-failed".into(), description: e, replay: json!({"property": prop, "module": "limits", "channels": case.to_json()}) }),
         }
     }
     // (b)
@@ -463,7 +464,7 @@ pub fn main(opts: &Opts) {
                     }
                     report.count_n("heartbeat_frames_timed", times.len() as u64);
                     if let Some(d) = worst_gap(&times, end, idle) {
-                        report.finding(Finding { kind: "violation", key: "idle-interval-without-a-frame".into(), description: d, replay: json!({"property": "C17", "module": "limits", "heartbeat": {"idle_ms": idle, "traffic": traffic}}) });
+                        report.finding(Finding { kind: "violation", key: "idle-interval-without-a-frame".into(), description: d, replay: json!({"property": prop, "module": "limits", "heartbeat": {"idle_ms": idle, "traffic": traffic}}) });
                     }
                     // model: the period derived from the advertised time-out
                     lines.push(format!("N period {}", idle));
@@ -471,7 +472,7 @@ pub fn main(opts: &Opts) {
                     let period = if times.len() >= 3 && !traffic { format!("~{}", (times[times.len() - 1] - times[0]) / (times.len() as u64 - 1)) } else { "skip".to_string() };
                     imp.push(period);
                 }
-                Err(e) => report.finding(Finding { kind: "violation", key: "heartbeat-scenario-failed".into(), description: e, replay: json!({"property": "C17", "module": "limits", "heartbeat": {"idle_ms": idle, "traffic": traffic}}) }),
+                Err(e) => report.finding(Finding { kind: "violation", key: "heartbeat-scenario-failed".into(), description: e, replay: json!({"property": prop, "module": "limits", "heartbeat": {"idle_ms": idle, "traffic": traffic}}) }),
             }
         }
     }
@@ -500,10 +501,10 @@ pub fn main(opts: &Opts) {
                 }
                 if let Some((key, desc)) = check_local_idle(idle, gap, &r) {
                     let key = if shutdown_fails && key == "time-out-not-reported" { "time-out-not-reported:shutdown-failed-too".to_string() } else { key };
-                    report.finding(Finding { kind: "violation", key, description: desc, replay: json!({"property": "C17", "module": "limits", "local_idle": {"idle_ms": idle, "gap_ms": gap, "n": n, "shutdown_fails": shutdown_fails}}) });
+                    report.finding(Finding { kind: "violation", key, description: desc, replay: json!({"property": prop, "module": "limits", "local_idle": {"idle_ms": idle, "gap_ms": gap, "n": n, "shutdown_fails": shutdown_fails}}) });
                 }
             }
-            Err(e) => report.finding(Finding { kind: "violation", key: "local-idle-scenario-failed".into(), description: e, replay: json!({"property": "C17", "module": "limits", "local_idle": {"idle_ms": idle, "gap_ms": gap, "n": n, "shutdown_fails": shutdown_fails}}) }),
+            Err(e) => report.finding(Finding { kind: "violation", key: "local-idle-scenario-failed".into(), description: e, replay: json!({"property": prop, "module": "limits", "local_idle": {"idle_ms": idle, "gap_ms": gap, "n": n, "shutdown_fails": shutdown_fails}}) }),
         }
     }
     // (d)
@@ -524,14 +525,14 @@ pub fn main(opts: &Opts) {
                                     "idle-time-out {} ms; a frame arrived at {} ms and was still unread when the transport was next polled at {} ms, one more arrived 3/8 of the time-out after that read: the polls returned {:?}, expected both frames (frames kept arriving in time; only the reader was late)",
                                     idle, w, p, polls
                                 ),
-                                replay: json!({"property": "C17", "module": "limits", "late_reader": {"idle_ms": idle, "write_at_ms": w, "poll_at_ms": p}}),
+                                replay: json!({"property": prop, "module": "limits", "late_reader": {"idle_ms": idle, "write_at_ms": w, "poll_at_ms": p}}),
                             });
                         }
                         // the model of one poll: input pending and deadline passed
                         lines.push("N poll 1 1".into());
                         imp.push(polls[0].clone());
                     }
-                    Err(e) => report.finding(Finding { kind: "violation", key: "late-reader-scenario-failed".into(), description: e, replay: json!({"property": "C17", "module": "limits", "late_reader": {"idle_ms": idle, "write_at_ms": w, "poll_at_ms": p}}) }),
+                    Err(e) => report.finding(Finding { kind: "violation", key: "late-reader-scenario-failed".into(), description: e, replay: json!({"property": prop, "module": "limits", "late_reader": {"idle_ms": idle, "write_at_ms": w, "poll_at_ms": p}}) }),
                 }
             }
         }
@@ -554,7 +555,7 @@ pub fn main(opts: &Opts) {
                     if imp[i] != "skip" && !same {
                         if bad == 0 {
                             let case = refs.iter().rev().find(|(s, _)| *s <= i).map(|x| x.1.to_json());
-                            report.finding(Finding { kind: "disagreement", key: "model-vs-implementation".into(), description: format!("{} -> implementation {} model {}", lines[i], imp[i], model[i]), replay: json!({"property": "C17", "module": "limits", "channels": case, "line": lines[i], "implementation": imp[i], "model": model[i]}) });
+                            report.finding(Finding { kind: "disagreement", key: "model-vs-implementation".into(), description: format!("{} -> implementation {} model {}", lines[i], imp[i], model[i]), replay: json!({"property": prop, "module": "limits", "channels": case, "line": lines[i], "implementation": imp[i], "model": model[i]}) });
                         }
                         bad += 1;
                     }
